@@ -303,6 +303,76 @@ func ScAttachDuringClose(hevc bool) Outcome {
 	return Outcome{Name: name}
 }
 
+// ScCloseAttachStress: attaches on both tables race the end of the stream, many times, without
+// gates (the interleavings between the schedule points: e.g. an attach landing between the sweep
+// of a table and the end of close).  Property (C03): whatever the interleaving, every consumer
+// that attached or tried to is closed exactly once and the ended stream counts no consumer.
+func ScCloseAttachStress(rounds int, hevc bool) Outcome {
+	name := "close-vs-attach-stress"
+	for round := 0; round < rounds; round++ {
+		w := NewWorld(hevc, true)
+		w.Publish(KSps, 2)
+		w.Publish(KPps, 2)
+		w.Publish(KKey, 2)
+		const joiners = 6
+		recs := make([]*Rec, joiners)
+		for i := range recs {
+			recs[i] = &Rec{Name: i, gate: make(chan struct{}, 1), world: w}
+			recs[i].Flv = i%2 == 0
+		}
+		start := make(chan struct{})
+		var wg sync.WaitGroup
+		for i, r := range recs {
+			wg.Add(1)
+			go func(i int, r *Rec) {
+				defer wg.Done()
+				<-start
+				for k := 0; k < i*(round%7); k++ {
+					runtime.Gosched()
+				}
+				if r.Flv {
+					r.CID = w.S.StartConsume(r, media.FLVPacket, "verif")
+				} else {
+					r.CID = w.S.StartConsume(r, media.RTPPacket, "verif")
+				}
+			}(i, r)
+		}
+		close(start)
+		for k := 0; k < round%5; k++ {
+			runtime.Gosched()
+		}
+		w.S.Close()
+		wg.Wait()
+		ok := Eventually(waitBudget, func() bool {
+			if w.S.ConsumerCount() != 0 {
+				return false
+			}
+			for _, r := range recs {
+				if r.CloseCalls() < 1 {
+					return false
+				}
+			}
+			return true
+		})
+		if !ok {
+			left := 0
+			for _, r := range recs {
+				if r.CloseCalls() < 1 {
+					left++
+				}
+			}
+			return Outcome{Name: name, Fail: fmt.Sprintf("round %d: after the stream ended %d of %d consumers that attached around the close are not released, consumer count %d", round, left, joiners, w.S.ConsumerCount()), Detail: w.Observe()}
+		}
+		time.Sleep(time.Millisecond)
+		for _, r := range recs {
+			if n := r.CloseCalls(); n != 1 {
+				return Outcome{Name: name, Fail: fmt.Sprintf("round %d: Consumer.Close called %d times", round, n), Detail: w.Observe()}
+			}
+		}
+	}
+	return Outcome{Name: name}
+}
+
 // ScCounterRace: two removals of the same consumer overlap (one parked between its lookup and
 // its delete).  Property (C03): the count is zero afterwards, never negative.
 func ScCounterRace(withCloseAll bool, hevc bool) Outcome {
